@@ -9,18 +9,17 @@ L1: theorems of NfcVerif.Props.C02: for every well-formed image, every message u
     and its torn state is an `example` of Props/C02.lean.
 L2: model vs nfcpy: ordered write commands (= the crash schedule) and, for every cut point,
     what a fresh reader sees.
-    `t12_cache_coherent` + `t12_retry_cut_safe`: after a LOST command the memory reader's picture
-    of the tag equals the tag, and a second assignment on the same NDEF object is again cut safe
-    and ends with exactly the new message.
+    Histories (`t12_history_cut_safe`, `t12_retry_cut_safe`, `t12_cache_coherent`, `t12_sync_is_prefix`): attempts
+    through ONE tag object, each aborted at any command by a fault of either kind (not executed / executed
+    but unacknowledged) or completed, compared with the history model (drv_c02) after every attempt.
 L3: real code: power is cut after the k-th state-changing command for every k; a fresh
-    activation must see old / empty / not readable / no NDEF / new.  Second scenario: command k
-    is lost (time-out of the command and its retransmissions, the exception reaches the
-    application), the application assigns the same or another message on the SAME object,
-    optionally cut again after j commands: old-or-empty / empty / new, and exactly the new message
-    when the retry completes.
+    activation must see old / empty / not readable / no NDEF / new.  Histories: command k of an
+    attempt fails (lost, executed but unacknowledged, NAK), the exception reaches the application,
+    which assigns again through the SAME object (possibly disturbed again): after every attempt a
+    fresh reader sees what it saw before the attempt, empty, or exactly the octets of the attempt.
+    Parts: c02_t34 (Type 3 / 4 / emulated Type 3), c02_vendor (tt2_nxp products, FeliCa Lite / Lite-S).
 """
 import logging
-import os
 
 from common import Model
 
@@ -37,6 +36,7 @@ THEOREMS = [
     "NfcVerif.C02.t12_cache_coherent",
     "NfcVerif.C02.t12_sync_is_prefix",
     "NfcVerif.C02.t12_retry_cut_safe",
+    "NfcVerif.C02.t12_fault_is_cut",
     "NfcVerif.C02.t12_history_cut_safe",
     "NfcVerif.C02.t12_history_cut_safe_strict",
     "NfcVerif.C02.t12_unacknowledged_mixture_asFound",
@@ -52,9 +52,13 @@ def run(ck):
     ck.rule = ("case = (tag kind, memory image, new message, cut point k); every k = 0..n of every write is explored; "
                "layouts as in C01 with NULL-TLV padding 0..7 so that the NDEF TLV takes every alignment in the 4/8-byte "
                "write unit, old/new lengths from {0,1,10,254,255,256,300,capacity}; non-trivial = 0 < k < n "
-               "(a genuinely partial write); distinct by hash of (kind, memory, message, k). Retry cases = (kind, memory, "
-               "first message, number k of the lost command from {0,1,mid,last-1,last,random}, second message same/"
-               "different incl. other length format, second cut j or none)")
+               "(a genuinely partial write); distinct by hash of (kind, memory, message, k). History cases = (kind, memory, "
+               "[(message, fault)...]) through ONE tag object: first message of length {1..8, ~40, 254, 255, 256, capacity} with "
+               "a fault (lost | late | NAK status) on EVERY command position (sampled above 7 / 40 positions), follow-up "
+               "assignment same | empty | previous message | other octets | other length format | capacity (all four first "
+               "kinds when the fault hits the first or the last two commands), undisturbed or disturbed again, plus two- to "
+               "four-fault histories; non-trivial = a fault was triggered; thorough: exhaustive two-fault histories on a 64 byte "
+               "Type 2 Tag (4 alignments x 3 messages x every fault x 4 follow-ups x every second fault)")
     ck.assumptions += [
         "atomicity unit = one tag command (Type 2 WRITE of 4 byte, Type 1 WRITE-E of 1 byte / WRITE-E8 of 8 byte); "
         "a cut happens between commands",
@@ -86,7 +90,17 @@ def run(ck):
         if n == 0 and f1:
             n = 1
         data = bytes(rng.randrange(1, 256) for _ in range(n))
-        r = Run(lay, data, cuts=True)
+        try:
+            r = Run(lay, data, cuts=True)
+        except Exception as e:  # noqa  nfcpy returned / raised something the run code did not foresee
+            from common import exc_name, Infra
+            if isinstance(e, Infra):
+                raise
+            d = {"kind": kind, "memory": bytes(lay["mem"]).hex(), "data": data.hex()}
+            if kind != "t2":
+                d["header_rom"] = lay["hr"].hex()
+            ck.fail("t12-unexpected-behaviour", "%s: writing %d bytes with every cut point ended with %s" % (kind, n, exc_name(e)), d)
+            continue
         runs.append(r)
         if r.nd is None:
             ck.fail("t12-wellformed-layout-not-read", "%s: %s" % (kind, r.before), r.replay())
@@ -207,6 +221,14 @@ def histories(ck, f1):
     rep = probe_unconfirmed_repair()
     ck.notes.append("tree under test sends the unit of an unacknowledged write again (fixes/C02/0002) = %s; the model "
                     "variant compared is %s" % (rep, "historyR" if rep else "history (as found)"))
+    ck.assumptions += [
+        "histories: a fault hits one state-changing command and all its retransmissions; the tag stays in the field and "
+        "answers the following commands; `lost` / `status` (NAK): the command is not executed, `late`: it is executed and "
+        "only the answers are lost; read commands and SECTOR SELECT are not faulted",
+    ]
+    ck.trusted += ["hand-written Lean model NfcVerif.Model.HistC01 (memory reader with cache, picture of the tag, unconfirmed "
+                   "units; faults) tied by differential runs (drv_c02)",
+                   "harness/sims/c01_hist.py (fault layer in front of the tag simulators), harness/sims/c02_hist.py"]
     model = Model("drv_c02")
     limit = 40 if ck.thorough else 7
     hs = []
@@ -276,6 +298,8 @@ def histories(ck, f1):
                 if rng.random() < 0.6:
                     atts.append((d, None))
                 add(HistRun(kind, lay, atts), lay, "hist:%s:%d-faults" % (kind, nf))
+    if ck.thorough:
+        small_exhaustive(ck, add)
     replies = model.ask_many([h.request(repaired=rep) for h, _ in hs])
     dis = 0
     for (h, _), r in zip(hs, replies):
@@ -288,6 +312,33 @@ def histories(ck, f1):
            cases=len(hs), disagreements=dis, exhaustive=False)
     if not rep:
         witness(ck)
+
+
+def small_exhaustive(ck, add):
+    """thorough tier: a 64 byte Type 2 Tag with the NDEF TLV at every alignment in the page (16..19): first message of
+    1, 3, 6 octets x EVERY fault (command, lost | late) x second message {empty, same, other, 2 octets} x (undisturbed |
+    EVERY fault); a doubly disturbed history ends with an undisturbed third assignment"""
+    from sims.c02_hist import HistRun
+    for pad in range(4):
+        mem = bytearray(64)
+        mem[12:16] = bytes([0xE1, 0x10, 6, 0])
+        mem[16 + pad:16 + pad + 5] = bytes([3, 2, 0xAA, 0xBB, 0xFE])
+        lay = {"kind": "t2", "mem": mem, "off": 16 + pad}
+        for n1 in (1, 3, 6):
+            d1 = bytes(range(0x11, 0x11 + n1))
+            clean = HistRun("t2", lay, [(d1, None)])
+            if clean.results != ["ok"]:
+                add(clean, lay, "hist:t2:small")
+                continue
+            for k in range(clean.ncmds[0]):
+                for mode in ("lost", "late"):
+                    for d2 in (b"", d1, bytes(b ^ 0x40 for b in d1), b"\x77\x78"):
+                        h = HistRun("t2", lay, [(d1, (k, mode)), (d2, None)])
+                        add(h, lay, "hist:t2:small:1-fault")
+                        for j in range(h.ncmds[1]):
+                            for m2 in ("lost", "late"):
+                                add(HistRun("t2", lay, [(d1, (k, mode)), (d2, (j, m2)), (b"\x09", None)]), lay,
+                                    "hist:t2:small:2-faults")
 
 
 def witness(ck):
